@@ -296,7 +296,7 @@ def scales_not_memoised(ctx, rule):
         f = D.methods.get(m)
         ctx.ob(rule, f"Device.{m} (read by the solver) is computed from the layer on every access", m not in memo, detail=memo.get(m),
                where=f.fq if f else D.fq, construct=f"Device.{m} memoised", loc=loc(f, f.node) if f else "",
-               message=f"Device.{m} is memoised ({memo.get(m)}) although it is derived from the mutable Layer (london_lambda, thickness, coherence_length can "
-                       f"be assigned at any time) and nothing invalidates it",
+               message=f"Device.{m} is memoised ({memo.get(m)}) although it is derived from mutable parts of the device (the Layer's london_lambda, thickness, "
+                       f"coherence_length can be assigned at any time; polygons can be moved in place) and nothing invalidates it",
                consequence="a penetration-depth sweep that sets device.layer.london_lambda and solves again weights the screening kernel with the first "
                            "run's Lambda: every step converges, but the stored potential is Lambda_new/Lambda_first times the Biot-Savart sum of the stored currents")
